@@ -65,7 +65,14 @@ class Stream:
             w0 = (p["ver"] << 13) | raw_id
             hdr = w0.to_bytes(2, "big") + ((p["flags"] << 14) | p["seq"]).to_bytes(2, "big") + (len(payload) - 1).to_bytes(2, "big")
             pk_bytes.append(hdr + payload)
-        garbage = [bytes.fromhex(g) for g in params.get("garbage", [])]
+        def garbage_octets(g):
+            if isinstance(g, dict):
+                # a foreign packet id that looks almost registered: high octet of one registered id, low octet of another, any version bits
+                a, b = self.ids[g["nm"][0] % len(self.ids)], self.ids[g["nm"][1] % len(self.ids)]
+                return bytes([(g["ver"] << 5) | (a >> 8), b & 0xFF]) + bytes.fromhex(g["tail"])
+            return bytes.fromhex(g)
+
+        garbage = [garbage_octets(g) for g in params.get("garbage", [])]
         garbage += [b""] * (len(pk_bytes) + 1 - len(garbage))
         stream = bytearray()
         self.spans = []
@@ -170,7 +177,8 @@ def st_stream(max_packets=6, garbage=True, big=True):
     pk = st_packet()
     if big:
         pk = st.one_of(pk, pk, pk, pk, pk, st_packet(300))
-    g = st.one_of(st.just(""), st.just(""), st.binary(max_size=9).map(bytes.hex)) if garbage else st.just("")
+    near_miss = st.fixed_dictionaries({"nm": st.tuples(st.integers(0, 2), st.integers(0, 2)).map(list), "ver": st.sampled_from([0, 0, 1, 6]), "tail": st.binary(max_size=6).map(bytes.hex)})
+    g = st.one_of(st.just(""), st.just(""), st.binary(max_size=9).map(bytes.hex), near_miss) if garbage else st.just("")
     return st.fixed_dictionaries({"ids": st_ids(), "packets": st.lists(pk, min_size=0, max_size=max_packets), "garbage": st.lists(g, max_size=max_packets + 1)})
 
 
@@ -241,6 +249,8 @@ def _schedule_classes(case):
         out.append("zero-length chunk")
     if s.has_garbage:
         out.append("garbage")
+    if any(isinstance(g, dict) for g in case["stream"].get("garbage", [])) and len(set(s.ids)) >= 2:
+        out.append("garbage with an almost-registered id")
     if any(p.get("embed") is not None for p in case["stream"]["packets"]):
         out.append("payload embeds a complete registered packet")
     if len(s.packets) >= 2:
@@ -418,7 +428,7 @@ CLAUSES = [
         check=run_schedule,
         nontrivial=_schedule_nt,
         classify=_schedule_classes,
-        required=["cut inside packet", "cut inside header", "cut right after header", "cut one octet before end", "chunk shorter than 6", "garbage", ">= 2 packets", "several appends per parse", "payload embeds a complete registered packet", "zero-length chunk"],
+        required=["cut inside packet", "cut inside header", "cut right after header", "cut one octet before end", "chunk shorter than 6", "garbage", ">= 2 packets", "several appends per parse", "payload embeds a complete registered packet", "zero-length chunk", "garbage with an almost-registered id"],
         n={"quick": 1200, "thorough": 10000},
     ),
     Clause(
